@@ -178,6 +178,10 @@ func (c *Ctx) capped() bool {
 	return c.stop
 }
 
+// Stopped reports whether this worker has already stopped taking cases (deadline passed): an enumeration over a very large product can
+// skip the work of naming the remaining cases.
+func (c *Ctx) Stopped() bool { return c.stop }
+
 // TimeUp reports whether the worker's deadline has passed; a long-running case that sees it stops exploring, and the run is marked as
 // capped (exhaustive: false) - it is not a failure.
 func (c *Ctx) TimeUp() bool {
